@@ -121,9 +121,9 @@ def localBufsFrom {α : Type} (zero : α) (first n : Nat) : Nat → World (RankV
 def chunkBlock {α : Type} (add : α → α → α) (zero : α) (w : World (RankView α)) (first n : Nat) :
     List (α × Nat) :=
   let bufs := localBufsFrom zero first n 0 w
-  match sum (slotAdd add) RefType.dbl n (bufs.map fun b => (b, List.replicate n (zero, 0))) with
-  | (_, out) :: _ => out
-  | [] => []
+  match (sum (slotAdd add) RefType.dbl n (bufs.map fun b => (b, List.replicate n (zero, 0)))).head? with
+  | some (_, out) => out
+  | none => []
 
 /-- the `while (nnode_written < n_global)` loop.  `fuel` bounds the number of passes: running out of fuel is the
     C's infinite loop when `chunk = 0` (`n = 0`, `nnode_written` never advances).
